@@ -29,6 +29,7 @@
 #include <stdlib.h>
 #include <string.h>
 #include <stdint.h>
+#include <sys/mman.h>
 #include <intel-ipsec-mb.h>
 #include "include/ipsec_ooo_mgr.h"
 #include "include/ooo_mgr_reset.h"
@@ -97,6 +98,7 @@ mode_resetimg(void)
 
 struct cmp {
         const uint8_t *a, *b;    /* block bases */
+        const karena *ara, *arb; /* buffer arenas of the two managers */
         size_t size;             /* block size */
         const uint8_t *ra, *rb;  /* region bases */
         const char *region;      /* "IMB_MGR" or the OOO field */
@@ -107,11 +109,20 @@ struct cmp {
         FILE *out;
 };
 
+/* pointers into the own manager block or into the own buffer arena become tagged offsets */
 static uint64_t
-norm_ptr(uint64_t v, const uint8_t *base, size_t size)
+norm_ptr(uint64_t v, const uint8_t *base, size_t size, const karena *ar)
 {
         const uint64_t b = (uint64_t) (uintptr_t) base;
-        return (v >= b && v < b + size) ? (v - b) | (1ULL << 63) : v;
+
+        if (v >= b && v < b + size)
+                return (v - b) | (1ULL << 63);
+        if (ar != NULL) {
+                const uint64_t ab = (uint64_t) (uintptr_t) ar->base;
+                if (v >= ab && v < ab + ar->size)
+                        return (v - ab) | (1ULL << 62);
+        }
+        return v;
 }
 
 static void
@@ -139,8 +150,8 @@ cmp_elem(const struct gl_leaf *lf, uint32_t off, const uint32_t *index, void *ar
         if (lf->kind == GL_BLOB)
                 return;
         if (lf->kind == GL_PTR && lf->esz == 8) {
-                const uint64_t va = norm_ptr(*(const uint64_t *) pa, c->a, c->size);
-                const uint64_t vb = norm_ptr(*(const uint64_t *) pb, c->b, c->size);
+                const uint64_t va = norm_ptr(*(const uint64_t *) pa, c->a, c->size, c->ara);
+                const uint64_t vb = norm_ptr(*(const uint64_t *) pb, c->b, c->size, c->arb);
 
                 if (va != vb) {
                         gl_elem_name(lf, index, name, sizeof(name));
@@ -167,7 +178,8 @@ cmp_struct(struct cmp *c, const struct gl_struct *st)
 
 /* returns differing bytes in state the new variant uses; *unused gets the rest */
 static long
-img_compare(IMB_MGR *ma, IMB_MGR *mb, FILE *out, long *unused, const char *label)
+img_compare(IMB_MGR *ma, IMB_MGR *mb, FILE *out, long *unused, const char *label, const karena *ara,
+            const karena *arb)
 {
         struct cmp c;
         const struct gr_variant *v = k_variant_of(mb);
@@ -178,6 +190,8 @@ img_compare(IMB_MGR *ma, IMB_MGR *mb, FILE *out, long *unused, const char *label
         c.size = imb_get_mb_mgr_size();
         c.covered = calloc(1, c.size);
         c.out = out;
+        c.ara = ara;
+        c.arb = arb;
         c.ra = c.a;
         c.rb = c.b;
         c.region = "IMB_MGR";
@@ -323,7 +337,7 @@ mode_run(int argc, char **argv)
                                 A->used_arch, (unsigned) A->used_arch_type, B->used_arch,
                                 (unsigned) B->used_arch_type);
         long unused1 = 0, unused2 = 0;
-        const long d1 = img_compare(A, B, stdout, &unused1, "after-init");
+        const long d1 = img_compare(A, B, stdout, &unused1, "after-init", NULL, NULL);
 
         if (d1)
                 fails++, printf("FAIL b: image differs from a fresh manager in %ld bytes of state\n", d1);
@@ -333,6 +347,12 @@ mode_run(int argc, char **argv)
         size_t lena = 0, lenb = 0;
         FILE *fa = open_memstream(&bufa, &lena), *fb = open_memstream(&bufb, &lenb);
         kctx *a2 = kctx_new(A, s, "X", fa), *b2 = kctx_new(B, s, "X", fb);
+        const size_t arsz = 64u << 20;
+        karena *arA = karena_register(mmap(NULL, arsz, PROT_READ | PROT_WRITE, MAP_PRIVATE | MAP_ANONYMOUS, -1, 0), arsz, 1);
+        karena *arB = karena_register(mmap(NULL, arsz, PROT_READ | PROT_WRITE, MAP_PRIVATE | MAP_ANONYMOUS, -1, 0), arsz, 1);
+
+        a2->arena = arA;
+        b2->arena = arB;
 
         for (int i = kprefix; i < s->nops; i++) {
                 /* items already used in the prefix cannot be submitted again */
@@ -376,7 +396,7 @@ mode_run(int argc, char **argv)
         fails += a2->order_violations + a2->bad_status + b2->order_violations + b2->bad_status;
         if (a2->npending || b2->npending)
                 fails++, printf("FAIL c: %d/%d jobs never came back\n", a2->npending, b2->npending);
-        const long d2 = img_compare(A, B, stdout, &unused2, "after-followup");
+        const long d2 = img_compare(A, B, stdout, &unused2, "after-followup", arA, arB);
         if (d2)
                 fails++, printf("FAIL b2: image differs after identical follow-up histories in %ld bytes\n", d2);
 
